@@ -14,6 +14,9 @@ CONSTANTS
   AllowExtClose = TRUE
   MaxUnsolicited = 0
   MaxAnswers = 1
+  HBReq = {}
+  HBMaxFail = 1
+  TimeoutLimit = 0
   Mut = "none"
 SYMMETRY Perm2
 INVARIANTS TypeOK NoMisroute NoReuseWhileOutstanding UniqueHold NoDupRefusal OutcomeAllowed ReleaseOnce Conservation NoLeak
